@@ -196,6 +196,52 @@ def log_family(ctx, rng):
     return out
 
 
+def combined_family(ctx, rng):
+    """(cfg, lines, files, shape) in the shapes of `one_file_header_per_section_combined` (T22): streams of several combined-diff
+    sections without conflict regions - modified in both parents (optionally with a `mode a,b..c` line), added in the merge
+    (`new file mode`, `--- /dev/null`), deleted (`diff --combined`, `deleted file mode a,b`, `+++ /dev/null`) -, bare (`git diff`
+    during a merge) or with commit blocks before / between them (`git show <merge>`, `git log -p --cc`), x the commit styles."""
+    out = []
+    for n in range(ctx.n(12, 120)):
+        cfg = M.gen_cfg(rng, color_only=False)
+        cfg.d["fileRaw"] = 0; cfg.d["fileOmit"] = 0
+        sname, sd = COMMIT_STYLES[n % 4]
+        cfg.d.update(sd)
+        with_commits = n % 3 != 0
+        files, lines, kinds = [], [], []
+        nblocks = 0
+        used = set()
+        for j in range(rng.randint(2, 4)):
+            if with_commits and (j == 0 or rng.random() < 0.5):
+                lines.extend(gen_commit_block(rng, nblocks, True)); nblocks += 1
+            l1, f1 = M.gen_combined_diff(rng, conflict=False)
+            f = f1[0]
+            if f["new"] in used:
+                continue
+            used.add(f["new"])
+            p = f["new"]
+            kind = rng.choice(["modified", "mode", "added", "deleted"])
+            l1 = list(l1)
+            if kind == "mode":
+                l1.insert(2, "mode 100644,100644..100755")
+            elif kind == "added":
+                l1.insert(1, "new file mode 100644")
+                l1[l1.index(f"--- a/{p}")] = "--- /dev/null"
+                f["kind"] = "added"; f["old"] = "/dev/null"
+            elif kind == "deleted":
+                l1[0] = f"diff --combined {p}"
+                l1.insert(1, "deleted file mode 100644,100644")
+                l1[l1.index(f"+++ b/{p}")] = "+++ /dev/null"
+                f["kind"] = "deleted"; f["new"] = "/dev/null"
+            f["lines"] = l1; f["first_line"] = len(lines); f["nparents"] = 2
+            lines.extend(l1); files.append(f); kinds.append(kind)
+        if with_commits and rng.random() < 0.3:
+            lines.extend(gen_commit_block(rng, nblocks, False))      # a commit block last
+        if files:
+            out.append((cfg, lines, files, ("log:" + sname if with_commits else "bare") + ":" + "+".join(sorted(set(kinds)))))
+    return out
+
+
 def run(ctx, rep):
     rep.rule = ("git diffs over all 20 section kinds (incl. renamed/copied binary file with changes, deleted binary file, binary file "
                 "with a mode change, submodule log of diff.submodule=log; every kind with a `Binary files` line also first/after a "
@@ -243,8 +289,15 @@ def run(ctx, rep):
     for cfg, lines, files, blocks, shape in log_family(ctx, rng):
         logmeta[len(cases)] = (blocks, shape)
         cases.append((cfg, [l.encode() for l in lines])); meta.append((cfg, lines, files, "git"))
+    # streams of combined-diff sections without conflict regions, with and without commit blocks (T22)
+    ccmeta = {}
+    for cfg, lines, files, shape in combined_family(ctx, rng):
+        ccmeta[len(cases)] = shape
+        cases.append((cfg, [l.encode() for l in lines])); meta.append((cfg, lines, files, "git"))
     res = M.observe(ctx, cases)
     for ci, ((cfg, lines, files, src), (impl, model)) in enumerate(zip(meta, res)):
+        if ci in ccmeta:
+            rep.count("combined-shape:" + ccmeta[ci])
         if ci in logmeta and impl.ok and not impl.panic:
             # the header of a section directly before a commit block stands before that block in the output (for a section
             # without `---`/`+++` lines it is written at the commit line), and no file header is written for a commit block
